@@ -177,6 +177,71 @@ example : let h : List (List Nat × Nat) := [([1, 2], 1), ([2], 2), ([1], 3)]
     simp [Seg.Ok, Unbound, registerAll, register, ins, Map.cons, abs, childOf, getE] <;>
     (rintro c w (⟨rfl, rfl⟩ | ⟨rfl, rfl⟩) <;> simp)
 
+/-- The matcher on ARBITRARY key streams from ARBITRARY states (the caller owns the state vector, so any list of
+    keys can be pending): every fire is sound — whenever a value fires, a chord bound to that value is a suffix of
+    the keys pending since the last fire (or since the start, the given state included). -/
+theorem C18_matcher_sound (h : List (List Nat × V)) (st ks : List Nat) :
+    FiresSound (abs (registerAll (.nil : Map V) h)) st ks (feed (registerAll .nil h) st ks).2 :=
+  feed_firesSound (C18_no_empty_submap h) ks (List.suffix_refl st)
+
+/-- One key from ANY state, read on the dictionary: if the pending keys plus the key are a bound chord it fires and
+    nothing stays pending; if they are a proper prefix of a bound chord nothing fires and they stay pending;
+    otherwise the matcher answers exactly as it would from the empty state (restart at the current key), and if the
+    key begins no bound chord nothing fires and only that key is left (an idle state). -/
+theorem C18_matcher_step (h : List (List Nat × V)) (st : List Nat) (k : Nat) :
+    (∀ v, (st ++ [k], v) ∈ abs (registerAll (.nil : Map V) h) → lookupState (registerAll .nil h) st k = ([], some v)) ∧
+    ((∃ c w, (c, w) ∈ abs (registerAll (.nil : Map V) h) ∧ ProperPrefix (st ++ [k]) c) →
+      lookupState (registerAll (.nil : Map V) h) st k = (st ++ [k], none)) ∧
+    ((∀ v, (st ++ [k], v) ∉ abs (registerAll (.nil : Map V) h)) →
+      (¬ ∃ c w, (c, w) ∈ abs (registerAll (.nil : Map V) h) ∧ ProperPrefix (st ++ [k]) c) →
+      lookupState (registerAll (.nil : Map V) h) st k = lookupState (registerAll .nil h) [] k ∧
+      (Unbound (abs (registerAll (.nil : Map V) h)) k → lookupState (registerAll (.nil : Map V) h) st k = ([k], none))) :=
+  matcher_step (C18_no_empty_submap h) st k
+
+/-- "An unbound key never prevents the chord typed immediately after it from firing", from ANY matcher state (not
+    only idle, not only reachable ones): if `u` begins no bound chord and does not continue what is pending
+    (pending ++ [u] is not a proper prefix of a bound chord), then whatever was pending — e.g. three keys of an
+    aborted four-key chord — every bound chord typed right after `u` answers nothing before its last key and its
+    value at its last key, and nothing is pending afterwards. -/
+theorem C18_matcher_any_state (h : List (List Nat × V)) (st : List Nat) (u : Nat)
+    (hu : Unbound (abs (registerAll (.nil : Map V) h)) u)
+    (hnp : ¬ ∃ c w, (c, w) ∈ abs (registerAll (.nil : Map V) h) ∧ ProperPrefix (st ++ [u]) c)
+    (c : List Nat) (v : V) (hc : (c, v) ∈ abs (registerAll (.nil : Map V) h)) :
+    (feed (registerAll (.nil : Map V) h) st (u :: c)).1 = [] ∧
+    (feed (registerAll (.nil : Map V) h) st (u :: c)).2.tail = List.replicate (c.length - 1) none ++ [some v] :=
+  matcher_after_unbound (C18_no_empty_submap h) st hu hnp hc
+
+/-- the hypotheses of `C18_matcher_any_state` with three keys of a four-key chord pending:
+    `1 2 3 4 ↦ 1`, `5 ↦ 2`; pending `1 2 3`, unbound key 9, then chord `5` -/
+example : let h : List (List Nat × Nat) := [([1, 2, 3, 4], 1), ([5], 2)]
+    Unbound (abs (registerAll (.nil : Map Nat) h)) 9 ∧
+    (¬ ∃ c w, (c, w) ∈ abs (registerAll (.nil : Map Nat) h) ∧ ProperPrefix ([1, 2, 3] ++ [9]) c) ∧
+    ([5], 2) ∈ abs (registerAll (.nil : Map Nat) h) ∧
+    (feed (registerAll (.nil : Map Nat) h) [1, 2, 3] [9, 5]).2 = [none, some 2] := by
+  have habs : abs (registerAll (.nil : Map Nat) [([1, 2, 3, 4], 1), ([5], 2)]) = [([1, 2, 3, 4], 1), ([5], 2)] := by
+    decide
+  simp only [habs]
+  refine ⟨?_, ?_, by simp, by decide⟩
+  · rintro c w hc; simp at hc; rcases hc with ⟨rfl, rfl⟩ | ⟨rfl, rfl⟩ <;> simp
+  · rintro ⟨c, w, hc, hp⟩
+    simp at hc
+    rcases hc with ⟨rfl, rfl⟩ | ⟨rfl, rfl⟩ <;> simp [ProperPrefix, List.cons_prefix_cons] at hp
+
+/-- What `register` returns (public API): for a non-empty chord on any reachable trie it is `None` exactly when the
+    chord's lookup fails, the previously bound value exactly when the chord was bound, and otherwise (the chord was
+    a proper prefix of bound chords) the superseded sub-map, which is non-empty, well formed and holds exactly the
+    bound extensions of the chord (as chords relative to it) with their values. -/
+theorem C18_register_prev (h : List (List Nat × V)) (c : List Nat) (hc : c ≠ []) :
+    (registerPrev (registerAll (.nil : Map V) h) c = none ↔ lookup (registerAll (.nil : Map V) h) c = .failure) ∧
+    (∀ w, registerPrev (registerAll (.nil : Map V) h) c = some (.val w) ↔ (c, w) ∈ abs (registerAll (.nil : Map V) h)) ∧
+    (∀ s, registerPrev (registerAll (.nil : Map V) h) c = some (.sub s) →
+      lookup (registerAll (.nil : Map V) h) c = .continue_ ∧ s ≠ .nil ∧ WF s ∧
+      ∀ t w, (t, w) ∈ abs s ↔ (c ++ t, w) ∈ abs (registerAll (.nil : Map V) h)) ∧
+    (lookup (registerAll (.nil : Map V) h) c = .continue_ →
+      ∃ s, registerPrev (registerAll (.nil : Map V) h) c = some (.sub s)) := by
+  obtain ⟨h1, h2, h3, h4⟩ := registerPrev_spec (C18_no_empty_submap h) c hc
+  exact ⟨h1, fun w => (h2 w).trans (mem_abs_iff (C18_no_empty_submap h) c w).symm, h3, h4⟩
+
 open SurfModel.KeyParse
 
 /-- Parsing never panics: for every input string the three parsers (`KeyName`, `Key`, `KeyChord`) return a value
